@@ -261,6 +261,7 @@ HkFails(e) ==
          IF ~hs.active THEN {<<"C03", "exit-without-go", D(e.seq)>>}
          ELSE (IF ~e.expired THEN {<<"C09", "loop-left-before-deadline", D(e.seq)>>} ELSE {})
               \cup (IF hs.nrecv = 0 THEN {<<"C03", "loop-left-without-board", D(e.seq)>>}
+                    ELSE IF hs.nrecv > Len(hs.sent) THEN {}     \* more received than sent: reported at the receive
                     ELSE IF ~SameBoard(hs.sent[hs.nrecv], e.board) THEN {<<"C03", "answer-is-not-last-received", D(e.seq)>>} ELSE {})
     [] OTHER -> {}
 HkStep(e) ==
